@@ -37,9 +37,11 @@ Lemma unmarked_set_init h i so k v : Forall unmarked h -> Forall unmarked (set_i
 Proof. intros H. apply Forall_updn; auto. intros; reflexivity. Qed.
 Lemma unmarked_free h fr n : Forall unmarked h -> Forall unmarked (fst (do_free h fr n)).
 Proof. intros H. unfold do_free. cbn [fst]. apply unmarked_set_kv. exact H. Qed.
-Lemma unmarked_alloc h fr : Forall unmarked h -> Forall unmarked (snd (fst (do_alloc h fr))).
+Lemma unmarked_alloc h fr a : Forall unmarked h -> do_alloc h fr = Some a -> Forall unmarked (snd (fst a)).
 Proof.
-  intros H. unfold do_alloc. destruct fr; cbn [fst snd]; auto. apply Forall_app. split; auto. constructor; [reflexivity | constructor].
+  intros H. unfold do_alloc. destruct (fr =? 0)%N.
+  - intros E. inversion E; subst. cbn [fst snd]. apply Forall_app. split; auto. constructor; [reflexivity | constructor].
+  - destruct (ptr_base <=? fr)%N; [|discriminate]. intros E. inversion E; subst. cbn [fst snd]. exact H.
 Qed.
 Lemma unmarked_fmark h i : Forall unmarked h -> fmark h i = false.
 Proof.
@@ -54,7 +56,7 @@ Section NoDel.
   Ltac heap_tac :=
     first [ assumption
           | apply unmarked_free; assumption
-          | apply unmarked_alloc; assumption
+          | eapply unmarked_alloc; eassumption
           | apply unmarked_set_next; heap_tac
           | apply unmarked_set_init; heap_tac ].
   Ltac fin :=
@@ -87,7 +89,8 @@ Section NoDel.
     destruct (ft_pc th) eqn:Epc; destruct (ft_prog th) as [|o rest] eqn:Eprog; try discriminate; cbn in Hpc; try contradiction.
     - (* QIdle, [] *) fin.
     - (* QIdle, o *) assert (Ho : nodel_op o) by (inversion Hprog; auto).
-      destruct o; cbn in Ho; try contradiction; fin.
+      destruct o; cbn in Ho; try contradiction;
+        try (destruct (do_alloc (fs_heap s) (fs_free s)) as [a|] eqn:Ea; [|discriminate]); fin.
     - (* QAtHash *) destruct c; cbn in Hpc; try contradiction; fin.
     - (* QFindStart *) fin.
     - (* QFindLoop *) destruct cur as [x|].
